@@ -26,7 +26,7 @@ DynOb = namedtuple("DynOb", "mod fn node stack")
 
 
 class AS(object):
-    __slots__ = ("D", "F", "P", "E", "_key")
+    __slots__ = ("D", "F", "P", "E", "_key", "_closed")
 
     def __init__(self, D=None, F=frozenset(), P=None, E=frozenset()):
         self.D = D if D is not None else {}
@@ -34,6 +34,7 @@ class AS(object):
         self.P = P if P is not None else {}
         self.E = E
         self._key = None
+        self._closed = None
 
     def key(self):
         if self._key is None:
@@ -116,6 +117,8 @@ class StateFlow(object):
         self.deleted_keys = set()
         self.assigners = defaultdict(set)  # key -> function names storing it
         self.keys_stored_by = {}
+        self._blocked_cache = None
+        self.epoch = 0
         self.implied_obs = defaultdict(list)
         self.inv_obs = defaultdict(list)
         self.gnz_exit = defaultdict(list)
@@ -131,6 +134,7 @@ class StateFlow(object):
         self.post_hooks = []  # callables (sf, callnode, target, st_before, st_after, frame) -> st_after
         self.excepted = {}  # (function name, key) -> reason: reads assumed defined (exceptions table)
         self.excepted_hits = []
+        self.excepted_context = "fragment_data"  # the table applies only below this function
         self.rounds = 0
         self.recording = True
         self._scan_assigners()
@@ -208,15 +212,21 @@ class StateFlow(object):
 
     # ------------------------------------------------------------ closure
     def blocked(self):
-        return frozenset(
-            k for k in self.GNZ if self.assigners[k] & set(self.stack_names)
-        )
+        b = self._blocked_cache
+        if b is None or b[0] != len(self.stack_names) or b[1] is not self.GNZ:
+            names = set(self.stack_names)
+            b = (len(self.stack_names), self.GNZ, frozenset(k for k in self.GNZ if self.assigners[k] & names))
+            self._blocked_cache = b
+        return b[2]
 
     def closure(self, st):
         """Apply the derived invariants: NZ(g) grants INV(g); k in D and GNZ(k)
         (no storing function on the stack) grants NZ(k)."""
         if st is None:
             return None
+        tag = (self.epoch, self.blocked() if self.GNZ else None)
+        if st._closed == tag:
+            return st
         changed = True
         while changed:
             changed = False
@@ -244,6 +254,7 @@ class StateFlow(object):
                 if add:
                     st = st.with_F(*add)
                     changed = True
+        st._closed = tag
         return st
 
     def kill(self, st, k):
@@ -267,7 +278,7 @@ class StateFlow(object):
         self.all_keys.add(key)
         st = self.closure(st)
         ok = key in st.D
-        if not ok and (fr.name, key) in self.excepted:
+        if not ok and (fr.name, key) in self.excepted and self.excepted_context in fr.stack:
             kind = "excepted"
             st = self.closure(st.with_D([key], "EXC"))
         if self.recording:
@@ -541,10 +552,12 @@ class StateFlow(object):
         sub = Frame(mod, fn, name, fr.stack + (name,), env)
         sub.try_depth = fr.try_depth
         self.stack_names.append(name)
+        self._blocked_cache = None
         try:
             out = self.block(fn.body, st, sub)
         finally:
             self.stack_names.pop()
+            self._blocked_cache = None
         res = out
         for r in sub.returns:
             res = join(res, r)
@@ -563,10 +576,12 @@ class StateFlow(object):
     def closure_nognz(self, st):
         g = self.GNZ
         self.GNZ = set()
+        self.epoch += 1
         try:
             return self.closure(st)
         finally:
             self.GNZ = g
+            self.epoch += 1
 
     def inline_local(self, fnode, call, st, fr):
         # closure over the same `state`; parameters are locals
@@ -977,6 +992,8 @@ class StateFlow(object):
         """roots: list of 'module:function' executed in sequence on one state,
         starting from the empty dictionary."""
         self.memo = {}
+        self.epoch += 1
+        self._blocked_cache = None
         self.reads, self.divs, self.dyn = [], [], []
         self.functions = OrderedDict()
         self.call_sites = 0
